@@ -8,7 +8,9 @@ World scenarios (registry + weak sets + activations; C02, C04)
   scenario world
   model <script>                         new Model whose `random` follows the draw script (`-` = empty)
   create m ty h x                        Agent subclass `ty` in model m; h=1: the program keeps a reference
-  createn m ty h n s:<x> | l:<x1,..,xn>  Agent.create_agents(m, n, x)  (scalar / per-agent argument)
+  createn m ty h n <arg> [<arg>]         Agent.create_agents(m, n, x[, y]); <arg> = s:<v> a single object | l:<v1,..,vk>
+                                         a sequence of any length (split over the agents iff k = n)
+  setagents m                            model.agents = […]  (rejected: err Attr)
   remove a | removeall m | unhold a
   shuffle <tgt> | sort <tgt> asc|desc    in place
   mkset m a b c …                        AgentSet([...], random=model_m.random)
@@ -72,6 +74,22 @@ def dumpWorld (w : World) : String :=
   let live := (List.range w.info.length).filter (alive w)
   " | ".intercalate (ms ++ ss ++ [s!"live={joinNat "," live}"])
 
+def fmtVal : Val → String
+  | .int v => toString v
+  | .seq l => "[" ++ ".".intercalate (l.map toString) ++ "]"
+
+/-- `a:uid:payload` of the `n` agents created from serial `a0` on -/
+def fmtNew (w : World) (a0 n : Nat) : String :=
+  ",".intercalate ((List.range' a0 n).map fun a =>
+    s!"{a}:{uidOf w a}:{"/".intercalate (((w.info[a]?.map (·.x)).getD []).map fmtVal)}")
+
+/-- an argument of `create_agents`: `s:<v>` a single object, `l:<v1,…>` a list / tuple / ndarray of any length -/
+def parseArg (s : String) : Option Arg :=
+  match s.splitOn ":" with
+  | ["s", v] => v.toInt?.map .scalar
+  | ["l", vs] => (parseInts vs).map .seq
+  | _ => none
+
 def fmtLog (l : List (Aid × Nat)) : String := ",".intercalate (l.map fun (a, x) => s!"{a}@{x}")
 
 structure WSt where
@@ -108,28 +126,23 @@ def worldLine (st : WSt) (ws : List String) : WSt × String :=
     match m.toNat?, ty.toNat?, parseBool h, x.toInt? with
     | some m, some ty, some h, some x =>
       if m < w.regs.length then
-        let w' := createAgent w m ty h x
-        ({ st with w := w' }, okW w' s!"new={w.info.length}:{uidOf w' w.info.length}:{x}")
+        let w' := createAgent w m ty h [.int x]
+        ({ st with w := w' }, okW w' s!"new={fmtNew w' w.info.length 1}")
       else bad
     | _, _, _, _ => bad
-  | ["createn", m, ty, h, n, xs] =>
-    match m.toNat?, ty.toNat?, parseBool h, n.toNat? with
-    | some m, some ty, some h, some n =>
-      let xl : Option (List Int) :=
-        match xs.splitOn ":" with
-        | ["s", v] => v.toInt?.map (List.replicate n)
-        | ["l", vs] => match parseInts vs with | some l => if l.length = n then some l else none | none => none
-        | _ => none
-      match xl with
-      | some xl =>
-        if m < w.regs.length then
-          let w' := createN w m ty h xl
-          let news := (List.range' w.info.length n).map fun a =>
-            s!"{a}:{uidOf w' a}:{(w'.info[a]?.map (·.x)).getD 0}"
-          ({ st with w := w' }, okW w' s!"new={",".intercalate news}")
-        else bad
-      | none => bad
-    | _, _, _, _ => bad
+  | "createn" :: m :: ty :: h :: n :: args =>
+    match m.toNat?, ty.toNat?, parseBool h, n.toNat?, args.mapM parseArg with
+    | some m, some ty, some h, some n, some args =>
+      if m < w.regs.length && (args.length = 1 || args.length = 2) then
+        let w' := createAgents w m ty h n args
+        ({ st with w := w' }, okW w' s!"new={fmtNew w' w.info.length n}")
+      else bad
+    | _, _, _, _, _ => bad
+  | ["setagents", m] =>
+    -- `model.agents = […]`: the property's setter raises AttributeError; nothing to change
+    match m.toNat? with
+    | some m => if m < w.regs.length then (st, "err Attr") else bad
+    | none => bad
   | ["remove", a] =>
     match a.toNat? with
     | some a => let w' := removeAgent w a; ({ st with w := w' }, okW w' "")   -- unknown agent: nothing to call
